@@ -91,7 +91,12 @@ def apply(v, spec):
 
 
 VALUES = [0, 7, -3, True, False, 1.5, "x", "", "a b", "é", ["a", "b"], ["a", 1, True, 1.5], [["a", "b"], "c", ["d"]], [],
-          {"k": "v", "n": 1}, {"k": ["a", "b"], "e": "", "s": "v"}, {"b": 2, "a": 1}, {}, [{"a": 1}, {"b": ""}], {"m": {"x": 1}}, [None, 1]]
+          {"k": "v", "n": 1}, {"k": ["a", "b"], "e": "", "s": "v"}, {"b": 2, "a": 1}, {}, [{"a": 1}, {"b": ""}], {"m": {"x": 1}}, [None, 1],
+          # numbers of every magnitude and kind: each transform prints a number the way interpolation does (%v)
+          [1000000, 2500000.0, "x"], [1e-5, 0.0001, 1e21, 123456789.0], {"big": 2500000.0, "tiny": 1e-7, "i": 10 ** 12}, 2500000.0, 1e-5,
+          [2 ** 53 + 1, -0.5, 1e6, 999999.5], {"a": 1e6, "b": 100000.0},
+          # lists of maps (flags / tolist over several maps), maps whose keys look like numbers
+          [{"a": 1, "b": "x"}, {"c": True}], [{"v": 1.5}, {"w": 2500000.0}], {"10": "t", "9": "n", "1a": "m", "07": "z"}]
 SPECS = gen.ENCODES + ["json", "yaml", "toml"]
 
 
